@@ -62,7 +62,10 @@ struct DataCarrierDetect
      */
     void update()
     {
-    	level_ = level_ * 0.8 + 0.2 * (level_1 / level_2);
+    	// No out-of-band energy at all (e.g. exact digital silence) must not
+    	// turn the ratio into 0/0 = NaN, which would stick in level_ forever.
+    	FloatType ratio = level_2 > 0 ? level_1 / level_2 : FloatType(0);
+    	level_ = level_ * 0.8 + 0.2 * ratio;
     	level_1 = 0.0;
     	level_2 = 0.0;
         triggered_ = triggered_ ? level_ > ltrigger_ : level_ > htrigger_;
